@@ -118,6 +118,16 @@ def special(rng, n, form, vreal):
         reach = np.array([lam for lam, part in ((1.0, sym), (-1.0, asym)) if np.linalg.norm(part) > tol])
         lam = np.array([1.0] * ((n + 1) // 2) + [-1.0] * (n // 2))
         return dict(A=A, v=v, kdim=len(reach), lam=lam, reach=reach, Afunc=lambda x: x[::-1])
+    if form == 'almost_invariant':
+        # Hermitian matrix of large norm with well separated spectrum; the start vector lies in a two-dimensional invariant subspace up to a
+        # perturbation of relative size 1e-15 .. 1e-12: after two steps the residual is tiny but (just) above the exhaustion threshold
+        U = rand_unitary(rng, n, not vreal)
+        lam = 1e3 * np.arange(1, n + 1, dtype=float)
+        A = (U * lam) @ U.conj().T
+        A = (A + A.conj().T) / 2
+        eps = float(10.0 ** rng.uniform(-15, -12))
+        v = U[:, 0] + 0.7 * U[:, 1] + eps * (rng.standard_normal(n) + (0 if vreal else 1j * rng.standard_normal(n)))
+        return dict(A=A, v=v, kdim=n, lam=lam, reach=lam)
     if form == 'zero_map':
         # the zero map (Hermitian): the Krylov space of any vector has dimension one and A v = 0 exactly
         return dict(A=np.zeros((n, n)), v=v, kdim=1, lam=np.zeros(n), reach=np.zeros(1), Afunc=lambda x: 0 * x)
